@@ -9,7 +9,7 @@ package extractor
 //@   requires root != nil
 //@   ensures result != nil && fresh(result) && result.TimingInfo != nil && fresh(result.TimingInfo) && result.Parser != nil
 //@   ensures wfParser(result.Parser)
-//@   ensures result.pageURL == pageURL && result.documentElement != nil
+//@   ensures result.pageURL == pageURL && result.documentElement != nil && result.WordCounter != nil
 
 //@ func (*ContentExtractor).ExtractTitle()
 //@   requires ce != nil && ce.Parser != nil && wfParser(ce.Parser) && ce.documentElement != nil
